@@ -2,8 +2,8 @@ SPECIFICATION Spec
 CONSTANTS
   N = 2
   Dir = "min"
-  MC = 2
-  Kinds = {"greedy_each", "greedy_pop", "extend_trim"}
+  MC = 3
+  Kinds = {"greedy_each", "greedy_pop", "extend_trim", "replace_all", "replace_trim", "shrink"}
   FT <- FT1
   Dev = "none"
 INVARIANT Feasible
@@ -18,5 +18,4 @@ PROPERTY HistoryAppendOnly
 PROPERTY ElitistMonotone
 PROPERTY StepRefinesFrame
 PROPERTY Terminates
-VIEW view
 CHECK_DEADLOCK FALSE
